@@ -473,3 +473,113 @@ def _energy(rng, nx, ny, sym):
     s = _surf(rng, nx, ny, sym)
     return dict(factory=lambda: Energy(surface=s), ints=[ny], consts=[],
                 inputs=OrderedDict(disp=_disp(rng, ny), loads=rng.normal(size=(ny, 6)) * 1e3), outputs=["energy"])
+
+
+# ---------------------------------------------------------------------------------------
+# geometry transformations
+# ---------------------------------------------------------------------------------------
+import openaerostruct.geometry.geometry_mesh_transformations as GT
+
+
+def _geo_mesh(rng, nx, ny, sym):
+    # full-span meshes need odd ny for the root index conventions of Sweep/Dihedral/Rotate
+    right = bool(sym and rng.uniform() < 0.3)
+    return gen.rand_mesh(rng, nx, ny, sym, right=right), right
+
+
+def _odd(ny, sym):
+    return ny if sym or ny % 2 == 1 else ny + 1
+
+
+@spec("Taper")
+def _taper(rng, nx, ny, sym):
+    ny = _odd(ny, sym)
+    mesh, right = _geo_mesh(rng, nx, ny, sym)
+    pos = float(rng.uniform(0, 1))
+    t = float(rng.choice([1.0, rng.uniform(0.2, 1.5)]))
+    return dict(factory=lambda: GT.Taper(val=t, mesh=mesh, symmetry=sym, ref_axis_pos=pos), ints=[nx, ny, int(sym)],
+                consts=[pos], inputs=OrderedDict(taper=np.array([t])), post_consts=mesh.ravel(), outputs=["mesh"],
+                branch="taper=1" if t == 1.0 else "taper!=1")
+
+
+@spec("ScaleX")
+def _scale_x(rng, nx, ny, sym):
+    mesh, right = _geo_mesh(rng, nx, ny, sym)
+    pos = float(rng.uniform(0, 1))
+    chord = rng.uniform(0.5, 1.5, size=ny)
+    return dict(factory=lambda: GT.ScaleX(val=chord, mesh_shape=mesh.shape, ref_axis_pos=pos), ints=[nx, ny, int(sym)],
+                consts=[pos], inputs=OrderedDict(chord=chord, in_mesh=mesh), outputs=["mesh"])
+
+
+@spec("Sweep")
+def _sweep(rng, nx, ny, sym):
+    ny = _odd(ny, sym)
+    mesh, right = _geo_mesh(rng, nx, ny, sym)
+    ang = float(rng.choice([0.0, rng.uniform(-20, 40)]))
+    return dict(factory=lambda: GT.Sweep(val=ang, mesh_shape=mesh.shape, symmetry=sym), ints=[nx, ny, int(sym)], consts=[],
+                inputs=OrderedDict(sweep=np.array([ang]), in_mesh=mesh), outputs=["mesh"])
+
+
+@spec("Dihedral")
+def _dihedral(rng, nx, ny, sym):
+    ny = _odd(ny, sym)
+    mesh, right = _geo_mesh(rng, nx, ny, sym)
+    ang = float(rng.choice([0.0, rng.uniform(-10, 20)]))
+    return dict(factory=lambda: GT.Dihedral(val=ang, mesh_shape=mesh.shape, symmetry=sym), ints=[nx, ny, int(sym)], consts=[],
+                inputs=OrderedDict(dihedral=np.array([ang]), in_mesh=mesh), outputs=["mesh"])
+
+
+@spec("Shear")
+def _shear(rng, nx, ny, sym):
+    mesh, right = _geo_mesh(rng, nx, ny, sym)
+    ax = int(rng.integers(3))
+    cls, nm = [(GT.ShearX, "xshear"), (GT.ShearY, "yshear"), (GT.ShearZ, "zshear")][ax]
+    sh = rng.normal(size=ny) * 0.3
+    return dict(factory=lambda: cls(val=sh, mesh_shape=mesh.shape), ints=[nx, ny, ax], consts=[],
+                inputs=OrderedDict([(nm, sh), ("in_mesh", mesh)]), outputs=["mesh"])
+
+
+@spec("Stretch")
+def _stretch(rng, nx, ny, sym):
+    mesh, right = _geo_mesh(rng, nx, ny, sym)
+    pos = float(rng.uniform(0, 1))
+    span = float(rng.uniform(4, 20))
+    return dict(factory=lambda: GT.Stretch(val=span, mesh_shape=mesh.shape, symmetry=sym, ref_axis_pos=pos),
+                ints=[nx, ny, int(sym)], consts=[pos], inputs=OrderedDict(span=np.array([span]), in_mesh=mesh), outputs=["mesh"])
+
+
+@spec("Rotate")
+def _rotate(rng, nx, ny, sym):
+    ny = _odd(ny, sym)
+    mesh, right = _geo_mesh(rng, nx, ny, sym)
+    pos = float(rng.uniform(0, 1)); rx = bool(rng.integers(2))
+    tw = rng.uniform(-8, 8, size=ny) * float(rng.integers(2))
+    return dict(factory=lambda: GT.Rotate(val=tw, mesh_shape=mesh.shape, symmetry=sym, rotate_x=rx, ref_axis_pos=pos),
+                ints=[nx, ny, int(sym), int(rx)], consts=[pos], inputs=OrderedDict(twist=tw, in_mesh=mesh), outputs=["mesh"])
+
+
+@spec("GeometryChain")
+def _geometry_chain(rng, nx, ny, sym):
+    from openaerostruct.geometry.geometry_mesh import GeometryMesh
+    ny = _odd(ny, sym)
+    mesh, right = _geo_mesh(rng, nx, ny, sym)
+    pos = float(rng.uniform(0, 1))
+    ref = pos * mesh[-1] + (1 - pos) * mesh[0]
+    cur_span = (ref[-1, 1] - ref[0, 1]) * (2 if sym else 1)
+    default = rng.uniform() < 0.25
+    z = np.zeros(ny)
+    vals = OrderedDict(
+        taper=np.array([1.0 if default else rng.uniform(0.3, 1.3)]),
+        chord=np.ones(ny) if default else rng.uniform(0.7, 1.3, size=ny),
+        sweep=np.array([0.0 if default else rng.uniform(-10, 30)]),
+        xshear=z.copy() if default else rng.normal(size=ny) * 0.1,
+        span=np.array([cur_span if default else cur_span * rng.uniform(0.7, 1.4)]),
+        yshear=z.copy() if default else rng.normal(size=ny) * 0.05,
+        dihedral=np.array([0.0 if default else rng.uniform(-5, 10)]),
+        zshear=z.copy() if default else rng.normal(size=ny) * 0.1,
+        twist=z.copy() if default else rng.uniform(-6, 6, size=ny),
+    )
+    s = dict(name="wing", symmetry=sym, mesh=mesh, ref_axis_pos=pos, taper=1.0, chord_cp=np.ones(2), sweep=0.0, xshear_cp=np.zeros(2),
+             span=1.0, yshear_cp=np.zeros(2), dihedral=0.0, zshear_cp=np.zeros(2), twist_cp=np.zeros(2))
+    return dict(factory=lambda: GeometryMesh(surface=s), ints=[nx, ny, int(sym)], consts=[pos], inputs=vals,
+                post_consts=mesh.ravel(), outputs=["mesh"], branch="defaults" if default else "random DVs", jtol=1e-6)
